@@ -586,10 +586,20 @@ class ChangePoint(CovarianceFunction):
 
         for i in range(self.n_kernels - 1):
             w = w_vals[i]
+            # factors of the coefficients of K_i and K_{i+1} which belong to the
+            # neighbouring change-points, and so are constant w.r.t. this one
+            lwr = 1.0
+            if i > 0:
+                lwr = w_vals[i - 1][:, None] * w_vals[i - 1][None, :]
+            upr = 1.0
+            if i + 1 < self.n_kernels - 1:
+                upr = (1 - w_vals[i + 1])[:, None] * (1 - w_vals[i + 1])[None, :]
             for dw in w_grads[i]:
                 A = -dw[:, None] * (1 - w)[None, :]
                 B = dw[:, None] * w[None, :]
-                gradients.append(K_vals[i] * (A + A.T) + K_vals[i + 1] * (B + B.T))
+                gradients.append(
+                    K_vals[i] * lwr * (A + A.T) + K_vals[i + 1] * upr * (B + B.T)
+                )
         return covar, gradients
 
     @staticmethod
